@@ -265,7 +265,14 @@ def phase_b(args):
     env = Env()
     sm = {'success': State.success, 'failure': State.failure,
           'invalid': State.invalid}
-    kinds = [(w, s, r) for w in range(3) for s in sm for r in (1, 2)]
+    kinds = [(w, s, r, 'doing') for w in range(3) for s in sm for r in (1, 2)]
+    if depth < 0:
+        # the scheduler state in which the reply arrives: target still in
+        # `doing`, target no longer there (withdrawn meanwhile), the node
+        # already dequeued, an aspect (`__all__`) run; run id 0 (regressions)
+        depth = -depth
+        kinds = [(w, s, r, d) for w in (0, 2) for s in sm for r in (0, 1)
+                 for d in ('doing', 'left-doing', 'dequeued', 'all')]
     try:
         n = -1
         for size in range(1, depth + 1):
@@ -277,18 +284,27 @@ def phase_b(args):
                 ctx.count('histories')
                 appended = []
                 for i, ki in enumerate(seq):
-                    wi, status, runid = kinds[ki]
+                    wi, status, runid, where = kinds[ki]
                     env.clock.set(B_INSTANTS[wi])
                     node = make_node(f't.a{i}')
-                    node.get('doing').add(f'T{i}')
-                    env.sched.que.append(node)
+                    tgt = f'T{i}'
+                    if where == 'doing':
+                        node.get('doing').add(tgt)
+                    elif where == 'left-doing':
+                        node.get('doing').add('other')
+                    elif where == 'all':
+                        node.get('doing').add('__all__')
+                        tgt = '__all__'
+                    if where != 'dequeued':
+                        env.sched.que.append(node)
                     try:
-                        env.sched.complete(node, runid, f'T{i}',
+                        env.sched.complete(node, runid, tgt,
                                            {'started': B_INSTANTS[wi]}, sm[status])
                     finally:
                         if node in env.sched.que:
                             env.sched.que.remove(node)
                     e = mk_entry(i, B_INSTANTS[wi], status, runid)
+                    e['target'] = tgt
                     e['_when'] = B_INSTANTS[wi]
                     appended.append(e)
                     # every entry so far present exactly once
@@ -379,7 +395,8 @@ def run(ctx):
     for r in common.pmap(phase_a, [(ctx.tier, ctx.seed, s, nsh, maxn) for s in range(nsh)]):
         ctx.merge(r)
         outcomes += r['outcomes']
-    for r in common.pmap(phase_b, [(ctx.tier, ctx.seed, s, 16, 3) for s in range(16)]):
+    for r in common.pmap(phase_b, [(ctx.tier, ctx.seed, s, 16, 3) for s in range(16)]
+                         + [(ctx.tier, ctx.seed, s, 16, -2) for s in range(16)]):
         ctx.merge(r)
     for r in common.pmap(phase_c, [(ctx.tier, ctx.seed, s, 16, 3 if quick else 4) for s in range(16)]):
         ctx.merge(r)
@@ -394,7 +411,7 @@ def run(ctx):
         'evaluations': c.get('find_calls', 0) + c.get('api_calls', 0) + c.get('append_checks', 0),
         'distinct_nontrivial': outcomes,
         'rule': f'A: every multiset of <= {maxn} instants of a 14-point menu x 15x15 windows x 3 limits; '
-                'B: every sequence of <= 3 appends over 18 entry kinds through schedule.complete; '
+                'B: every sequence of <= 3 appends over 18 entry kinds through schedule.complete, and every sequence of <= 2 over 48 kinds that vary the scheduler state at reply time (target in doing / withdrawn / node dequeued / __all__) and run id 0; '
                 'C: fe.api.schedule.succeeded/failed on every subset (<=3) of 6 instants x 7x7 windows. '
                 'distinct_nontrivial = distinct result lists returned by find() (summed over shards)',
         'histories': c.get('histories', 0),
